@@ -237,6 +237,9 @@ theorem allocTotal_hookTrace : ∀ (ty : Ty) (v : Val), wf ty v = true → layou
   | .box sz t, v, h, hl => by
     have := allocTotal_hookTrace t v (by simpa [wf] using h) (by simpa [layoutOk] using hl)
     simp only [hookTrace, payload, allocTotal, allocTotal_append, this]; omega
+  | .wrap t, v, h, hl => by
+    have := allocTotal_hookTrace t v (by simpa [wf] using h) (by simpa [layoutOk] using hl)
+    simp only [hookTrace, payload, allocTotal, allocTotal_append, this]; omega
   | .range t, v, h, hl => by
     obtain ⟨a, b, rfl, ha, hb⟩ := wf_range h
     simp only [layoutOk] at hl
@@ -460,6 +463,9 @@ theorem bal_hookTrace : ∀ (ty : Ty) (v : Val), wf ty v = true → layoutOk ty 
   | .box sz t, v, h, hl => by
     have hb := Bal.wrap (Bal.alloc sz (bal_hookTrace t v (by simpa [wf] using h) (by simpa [layoutOk] using hl)))
     simpa only [hookTrace, nesting, List.cons_append] using hb
+  | .wrap t, v, h, hl => by
+    have hb := Bal.wrap (bal_hookTrace t v (by simpa [wf] using h) (by simpa [layoutOk] using hl))
+    simpa only [hookTrace, nesting, List.cons_append] using hb
   | .range t, v, h, hl => by
     obtain ⟨a, b, rfl, ha, hb⟩ := wf_range h
     simp only [layoutOk] at hl
@@ -523,6 +529,7 @@ def heapFree : Ty → Bool
   | .str => false
   | .bytes => false
   | .box _ _ => false
+  | .wrap t => heapFree t
   | .bitseq _ _ => false
   | _ => true
 where
@@ -573,6 +580,9 @@ theorem payload_heapFree : ∀ (ty : Ty) (v : Val), heapFree ty = true → paylo
   | .str, _, h => by simp [heapFree] at h
   | .bytes, _, h => by simp [heapFree] at h
   | .box _ _, _, h => by simp [heapFree] at h
+  | .wrap t, v, h => by
+    simp only [payload]
+    exact payload_heapFree t v (by simpa [heapFree] using h)
   | .bitseq _ _, _, h => by simp [heapFree] at h
 
 theorem payloadList_heapFree : ∀ (ts : List Ty) (vs : List Val), heapFree.heapFreeList ts = true →
